@@ -7,6 +7,7 @@ import (
 	"compress/zlib"
 	"encoding/hex"
 	"fmt"
+	"os"
 	"sort"
 	"strings"
 	"sync"
@@ -493,6 +494,23 @@ func buildTable(thorough bool) (*table, error) {
 	// added after the third round of independent seeds
 	b.jbig2ParamProgramGroups()
 	b.dctProgramGroups()
+	// added after the fifth round of independent seeds
+	b.dctFrameGroups()
+	b.jbig2SymbolDictGroups()
+	if only := os.Getenv("C08_ONLY"); only != "" {
+		// development aid: keep the named spaces only (the run is then reported as capped)
+		keep := map[string]bool{}
+		for _, n := range strings.Split(only, ",") {
+			keep[n] = true
+		}
+		t := &table{dims: b.t.dims}
+		for _, g := range b.t.groups {
+			if keep[g.name] {
+				t.add(g.name, g.n, g.gen)
+			}
+		}
+		b.t = t
+	}
 	return b.t, nil
 }
 
